@@ -467,10 +467,13 @@ def embedded_label_rule(m, rid):
                 stored |= {x.id for x in ast.walk(n.value) if isinstance(x, ast.Name)}
             if isinstance(n, ast.Call) and A.text(n.func) in ("self.content.append", "self.content.insert"):
                 stored |= {x.id for a in n.args for x in ast.walk(a) if isinstance(x, ast.Name)}
+        # the statement's own item, under whatever local name
+        item_names = {"self.item"} | {n.targets[0].id for n in body if isinstance(n, ast.Assign) and len(n.targets) == 1
+                                      and isinstance(n.targets[0], ast.Name) and A.text(n.value) == "self.item"}
         copies = {}     # local name -> the copy() call
         for n in body:
             if isinstance(n, ast.Assign) and len(n.targets) == 1 and isinstance(n.targets[0], ast.Name) and isinstance(n.value, ast.Call) \
-                    and isinstance(n.value.func, ast.Attribute) and n.value.func.attr == "copy" and A.text(n.value.func.value) in ("item", "self.item"):
+                    and isinstance(n.value.func, ast.Attribute) and n.value.func.attr == "copy" and A.text(n.value.func.value) in item_names:
                 copies[n.targets[0].id] = n
         cleared = {A.text(t.value) for n in body if isinstance(n, ast.Assign) for t in n.targets
                    if isinstance(t, ast.Attribute) and t.attr == "label" and A.const(n.value, 1) is None}
@@ -480,7 +483,7 @@ def embedded_label_rule(m, rid):
                 continue
             arg = n.value.args[1]
             inline = isinstance(arg, ast.Call) and isinstance(arg.func, ast.Attribute) and arg.func.attr == "copy" \
-                and A.text(arg.func.value) in ("item", "self.item")
+                and A.text(arg.func.value) in item_names
             if not inline and not (isinstance(arg, ast.Name) and arg.id in copies):
                 continue
             r.instances += 1
@@ -506,27 +509,29 @@ def label_field_rule(m, rid):
     if f is None:
         r.error("Statement.get_indent_tab vanished")
         return r
-    tail = None
-    for i, s_ in enumerate(f.node.body):
-        if isinstance(s_, ast.Assign) and A.text(s_.value) == "str(label)":
-            tail = f.node.body[i:]
-    if tail is None:
-        r.error("Statement.get_indent_tab: the label formatting part (`s = str(label)` ...) was not found (anchor changed)")
-        return r
-    ev = PE.Evaluator({})
+    # the whole function is interpreted on a model statement (no local name of it is relied on): a chain of `depth` enclosing
+    # statements, an item with the label, the reader's form
+    class _Marker:
+        pass
+
+    class _St(PE.Obj, _Marker):
+        pass
+    ev = PE.Evaluator({"Statement": _Marker})
+    ev.g["isinstance"] = lambda o, t: isinstance(o, t) if isinstance(t, (type, tuple)) else False
+    ev.g["getattr"] = lambda o, n, *d: (o.fields[n] if isinstance(o, PE.Obj) and n in o.fields else (d[0] if d else None))
+    tail = [f.node]
     bad = []
     try:
         for isfix in (True, False):
             for label in (1, 10, 100, 1000, 12345, 99999):
                 for depth in (0, 1, 2, 5):
                     r.instances += 1
-                    tab0 = (" " * 6 if isfix else "") + "  " * depth
-                    env = {"label": label, "isfix": isfix, "tab": tab0}
-                    try:
-                        ev.block(tail, env)
-                        got = env.get("tab")
-                    except PE._Return as ret:
-                        got = ret.value
+                    parent = PE.Obj({"parent": None})           # the top is not a Statement
+                    for _ in range(depth):
+                        parent = _St({"parent": parent})
+                    me = _St({"parent": parent, "item": PE.Obj({"label": label}),
+                              "reader": PE.Obj({"format": PE.Obj({"is_fixed": isfix})})})
+                    got = ev.run_function(f.node, [me], {"isfix": isfix if depth % 2 else None})
                     if isfix:
                         ok = isinstance(got, str) and len(got) >= 6 and got[:5].strip() == str(label) and got[5] == " "
                     else:
